@@ -57,21 +57,16 @@ RecvEv(e) ==
      /\ e.rot = (r.res = "succR" /\ r.obj.sel # Plain)
   /\ StOK(e, e.o)
 
-RECURSIVE TickN(_, _, _, _)
-TickN(o, n, outs, res) ==
-  IF n = 0 \/ res = "fatal" THEN [obj |-> o, outs |-> outs, res |-> res]
-  ELSE LET r == TickObj(o) IN TickN(r.obj, n - 1, outs \o r.out, r.res)
-
 TicksEv(e) ==
-  LET r == TickN(obj[e.o], e.n, <<>>, "ok") IN
+  LET r == TickMany(obj[e.o], e.n) IN
   /\ alive[e.o]
   /\ obj' = [obj EXCEPT ![e.o] = r.obj]
   /\ alive' = [alive EXCEPT ![e.o] = r.res # "fatal"]
   /\ e.res = (IF r.res = "fatal" THEN "fatal" ELSE "ok")
-  /\ e.other = 0 /\ e.cnt = Len(r.outs)
-  /\ e.cnt > 0 => (e.rep \in 1..Len(wireSeq) /\ \A i \in 1..Len(r.outs) : r.outs[i] = wireSeq[e.rep])
-  /\ net' = net \cup SetOf(r.outs) /\ sentSeq' = sentSeq \o r.outs
-  /\ UNCHANGED <<trusted, done, role, got, rotSent, gen, wireSeq>>
+  /\ e.other = 0 /\ e.cnt = r.cnt
+  /\ e.cnt > 0 => (e.rep \in 1..Len(wireSeq) /\ obj[e.o].last = wireSeq[e.rep])
+  /\ net' = IF r.cnt > 0 THEN net \cup {obj[e.o].last} ELSE net
+  /\ UNCHANGED <<trusted, done, role, got, rotSent, gen, wireSeq, sentSeq>>
   /\ StOK(e, e.o)
 
 FinalEv(e) ==
